@@ -32,6 +32,31 @@ extern "C" void harness() {
   }
   __verif_cover("end");
 }
+#elif defined(H17C)
+// H17C: the constant regulariser of finalize() (an UNSCALED 1e-8 on the diagonal) is added only to rows that received no diagonal
+// contribution: otherwise scaling all weights and penalties by a common factor would change the system other than by that
+// factor.  A cell with a weighted net and a penalty of strength exactly 0 (or positive) must not get it.
+extern "C" void harness() {
+  float w = __verif_nondet_float(0.0078125f, 64.0f);
+  float o0 = __verif_nondet_float(-1000.0f, 1000.0f); float fp = __verif_nondet_float(-1000.0f, 1000.0f);
+  NetModel m(2);
+  m.addNet({0}, {o0}, fp, fp, w);               // cell 0: movable pin + one fixed pin; cell 1: no net
+  MatrixCreator mc = MatrixCreator::createStar(m);
+  int z0 = __verif_choice(2), z1 = __verif_choice(2), order = __verif_choice(2);
+  float s0 = 0.0f, s1 = 0.0f;
+  if (!z0) s0 = __verif_nondet_float(0.01f, 2.0f);
+  if (!z1) s1 = __verif_nondet_float(0.01f, 2.0f);
+  if (order) mc.addPenalty({3.0f, 5.0f}, {7.0f, 5.5f}, {s0, s1}, 1.0f);     // distances 4 and 0.5 (cutoff 1)
+  size_t n0 = mc.mat().size();
+  mc.finalize();
+  const std::vector<Eigen::Triplet<float> >& t = mc.mat();
+  for (size_t k = n0; k < t.size(); ++k) {
+    VASSERT(t[k].row() == t[k].col(), "the regulariser is diagonal");
+    VASSERT(t[k].row() != 0, "no unscaled regulariser on a row that already has a weighted diagonal entry");
+  }
+  VASSERT(t.size() <= n0 + 1, "at most the net-less cell is regularised");
+  __verif_cover("end");
+}
 #else
 // H17A: scaling all weights by 2^k scales every assembled entry by exactly 2^k (two-pin nets, initial star model)
 extern "C" void harness() {
